@@ -7,7 +7,8 @@ A `World` lives under one directory:
     src/<n>/workspace               scratch package results used by share-level installs (ws id 100+n)
 
 `Child` forks a real process that executes ONE operation with the real code.  In controlled mode the
-child stops before every OpenLocked open, before every flock, after every unlock of a writable file,
+child stops before every OpenLocked open, before every other open() of repo.json in bob.share (the create-if-missing
+step of __addPackage, which runs outside the lock), before every flock, after every unlock of a writable file,
 before hashDirectoryWithSize (verification), before the publishing / collecting os.rename and before the
 workspace os.symlink / os.unlink, reports where it is and waits for a byte on its control pipe.
 """
@@ -320,10 +321,24 @@ def _child(world, desc, ctrl_r, ev_w, free):
         orig_hash = S.hashDirectoryWithSize
         o_rename, o_symlink, o_unlink = os.rename, os.symlink, os.unlink
 
+        in_enter = [False]
+
         def enter(self):
             base, at = fkind(self.fileName)
             chan.stop("open", base, self.mode, at)
-            return orig_enter(self)
+            in_enter[0] = True
+            try:
+                return orig_enter(self)
+            finally:
+                in_enter[0] = False
+
+        import builtins
+
+        def plain_open(file, *a, **kw):
+            # an open() in bob.share that is not the one of OpenLocked.__enter__: no lock protects it
+            if not in_enter[0] and isinstance(file, str) and os.path.basename(file) == "repo.json":
+                chan.stop("create", "repo.json", a[0] if a else kw.get("mode", "r"))
+            return builtins.open(file, *a, **kw)
 
         def lock(fd, exclusive):
             base, at = fkind(fd.name)
@@ -373,6 +388,7 @@ def _child(world, desc, ctrl_r, ev_w, free):
             return o_unlink(path, **kw)
 
         S.OpenLocked.__enter__ = enter
+        S.open = plain_open              # module global: shadows the builtin inside bob.share only
         S.lockFile, S.unlockFile, S.hashDirectoryWithSize = lock, unlock, hashdir
         os.rename, os.symlink, os.unlink = rename, symlink, unlink
 
